@@ -161,6 +161,17 @@ def _format_help_text(description):
     return '\n'.join(formatted_lines)
 
 
+def _format_rule_line(name, check_str):
+    """Create the ``"name": "rule"`` line of a yaml policy file.
+
+    A JSON scalar (or, for the list-of-lists syntax, a JSON list) is valid
+    YAML, so quotes and backslashes in the rule survive and a list stays a
+    list instead of being turned into its Python repr.
+    """
+    return '{}: {}\n'.format(jsonutils.dumps(name, ensure_ascii=False),
+                            jsonutils.dumps(check_str, ensure_ascii=False))
+
+
 def _format_rule_default_yaml(default, include_help=True, comment_rule=True,
                               add_deprecated_rules=True):
     """Create a yaml node from policy.RuleDefault or policy.DocumentedRuleDefault.
@@ -173,9 +184,7 @@ def _format_rule_default_yaml(default, include_help=True, comment_rule=True,
                                  text.
     :returns: A string containing a yaml representation of the RuleDefault
     """  # noqa: E501
-    text = ('"%(name)s": "%(check_str)s"\n' %
-            {'name': default.name,
-             'check_str': default.check_str})
+    text = _format_rule_line(default.name, default.check_str)
 
     if include_help:
         op = ""
@@ -509,10 +518,7 @@ def _convert_policy_json_to_yaml(namespace, policy_file, output_file=None):
     if file_policies:
         yaml_format_rules.append(extra_rules_text)
     for file_rule, check_str in file_policies.items():
-        rule_text = ('"%(name)s": "%(check_str)s"\n' %
-                     {'name': file_rule,
-                      'check_str': check_str})
-        yaml_format_rules.append(rule_text)
+        yaml_format_rules.append(_format_rule_line(file_rule, check_str))
 
     if output_file:
         with open(output_file, 'w') as fh:
